@@ -272,12 +272,12 @@ std::vector<at::Tensor> amen_solve(
 
 
             double norm = torch::norm(Phis[k]).item<double>();
-            norm = norm>0 ? norm : 0.0;
+            norm = norm>0 ? norm : 1.0;
             normA[k-1] = norm;
             Phis[k] = Phis[k] / norm;
 
             norm = torch::norm(Phis_b[k]).item<double>();
-            norm = norm>0 ? norm : 0.0;
+            norm = norm>0 ? norm : 1.0;
             normb[k-1] = norm;
             Phis_b[k] = Phis_b[k] / norm;
             
@@ -354,6 +354,8 @@ std::vector<at::Tensor> amen_solve(
                 solution_now = solution_now.reshape({-1,1});
 
                 solution_now += previous_solution;
+                if(!(norm_rhs > 0))
+                    solution_now = torch::zeros_like(solution_now); // vanishing local right-hand side: the local solution is zero (as the direct solver returns)
                 res_old = torch::norm(Op.matvec(previous_solution, false)-rhs).item<double>()/norm_rhs;
                 res_new = torch::norm(Op.matvec(solution_now, false)-rhs).item<double>()/norm_rhs;
 
